@@ -30,6 +30,31 @@ def observed_top_tie():
     return top >= obj.threshold and sum(1 for v in prev.scores.values() if v == top) >= 2
 
 
+def observed_overquota():
+    """Did some recorded round of the election that raised have more candidates at/above its threshold than seats left
+    (or a non-positive threshold)?  Decided on the observed tallies: the reference (fractional semantics) cannot predict
+    the tallies of a random-transfer count."""
+    last = rules.LAST_STEP[0]
+    if not last:
+        return False
+    obj = last[0]
+    T = getattr(obj, "threshold", None)
+    m = getattr(obj, "m", None)
+    if T is None or m is None:
+        return False
+    if T <= 0:
+        return True
+    elected = 0
+    for s in obj.election_states:
+        elected += sum(len(g) for g in s.elected)
+        if elected > m:
+            return True
+        above = sum(1 for v in s.scores.values() if v >= T)
+        if getattr(obj, "simultaneous", True) and above > m - elected:
+            return True
+    return False
+
+
 def check_outcome(ctx, case, out, r, cands, ballots):
     cfg = case["cfg"]
     rule = cfg["rule"]
@@ -55,9 +80,13 @@ def check_outcome(ctx, case, out, r, cands, ballots):
                 if required:
                     ctx.count("valueerror_required_seen")
                 return
+        mech = oracle.classify(cfg, cands, ballots, et, r.events)
+        if mech is None and cfg.get("transfer") == "random" and (rule in rules.STV_FAMILY or rule == "Alaska") and \
+                et in ("IndexError", "ZeroDivisionError", "KeyError") and observed_overquota():
+            mech = "stv-overquota"
+            ctx.count("overquota_classified_on_observed_tallies")
         ctx.fail(f"{rule}: {et} escapes for valid input: {str(out.exc)[:120]}", case,
-                 {"exception": et, "message": str(out.exc)[:300], "tb": out.tb[-900:] if out.tb else None},
-                 mech=oracle.classify(cfg, cands, ballots, et, r.events))
+                 {"exception": et, "message": str(out.exc)[:300], "tb": out.tb[-900:] if out.tb else None}, mech=mech)
         return
     e = out.value
     ctx.count("runs_ok")
